@@ -59,16 +59,17 @@ def run(ck):
                 if r != 0 or "unidentified=0 reused=0 gaps=0 seedings=1" not in o:
                     fails.append(("free-running stress", "stress %d %d" % (T, R), o.strip() + e[-200:], "unidentified=0 reused=0 gaps=0 seedings=1"))
         # one Gaussian sampler object shared by the threads: every call's output must be the decode of the keystreams that call itself obtained
-        for T, R in ((2, 20), (4, 15), (8, 8)) + (() if q else ((16, 20),)):
-            r, o, e = vf.run_io([sx], "gshare %d %d\n" % (T, R), timeout=600)
+        # request lengths: a whole polynomial (200), and short requests (8, 2, 1 samples: other buffer-management paths of the sampler)
+        for T, R, LEN in ((2, 20, 200), (4, 15, 200), (8, 8, 200), (4, 200, 8), (4, 300, 2), (8, 300, 1)) + (() if q else ((16, 20, 200), (16, 500, 4), (8, 2000, 1))):
+            r, o, e = vf.run_io([sx], "gshare %d %d %d\n" % (T, R, LEN), timeout=600)
             stress.append((T, R, o.strip()))
             if r != 0 or "unidentified=0 reused=0 gaps=0 outputs_not_from_own_keystream=0 seedings=1" not in o:
-                fails.append(("shared Gaussian sampler", "gshare %d %d" % (T, R), o.strip() + e[-200:], "unidentified=0 reused=0 gaps=0 outputs_not_from_own_keystream=0 seedings=1"))
+                fails.append(("shared Gaussian sampler", "gshare %d %d %d" % (T, R, LEN), o.strip() + e[-200:], "unidentified=0 reused=0 gaps=0 outputs_not_from_own_keystream=0 seedings=1"))
     if not q:
         tx, out = build(["-fsanitize=thread", "-g"], "h_prngconc_tsan")
         if tx:
             for T, R in ((4, 5),):
-                r, o, e = vf.run_io([tx], "gshare %d %d\n" % (T, R), timeout=600)
+                r, o, e = vf.run_io([tx], "gshare %d %d 200\n" % (T, R), timeout=600)
                 if r != 0 or "WARNING: ThreadSanitizer" in e: fails.append(("ThreadSanitizer (shared Gaussian sampler)", "gshare %d %d" % (T, R), e[-600:], "no data race report"))
             for T, R in ((2, 50), (8, 50), (16, 30)):
                 r, o, e = vf.run_io([tx], "stress %d %d\n" % (T, R), timeout=600)
@@ -87,6 +88,9 @@ def run(ck):
     ck.assumptions = ["atomicity of std::atomic::fetch_add and the C++11 guarantee that a function-local static is initialised exactly once are trusted",
                       "a thread that would block inside the one-time initialisation is modelled as a no-op step; the cooperative scheduler releases it and requires that it reaches no further point while the owner is inside (25 ms; PASSED-UNSEEDED otherwise)",
                       "real data races are observable only at run time (TSan stress in the thorough tier); the theorem is about the interleaving model"]
+    # threads that "sample random polynomials at the same time": the samplers themselves must keep no state of their own (C17 runs every sampler
+    # kind concurrently and audits the writable statics of the binary)
+    vf.run_deps(ck, ['C17'])
     return ck.finish(trusted=["coqc 8.16.1 kernel", "extraction + driver.ml", "h_prngconc.cpp cooperative scheduler + hook points (NFLLIB_VERIF)", "ThreadSanitizer (thorough)"])
 
 def replay(ck, rec):
